@@ -372,6 +372,31 @@ class ConnWorld(World):
         self.step()
         self.drain()
 
+    def connect_fully_split(self) -> None:
+        """Like connect_fully, but every device frame of the connect phase arrives in a chunk of its own."""
+        self.do_start()
+        self.do_tcp_ok()
+        if self.outcome("start") != "ok":
+            raise HarnessError(f"seed: start did not succeed: {self.results.get('start')}")
+        self.do_finish_call()
+        assert self.sock is not None
+        frames: list[bytes] = []
+        if self.noise:
+            assert self.ndev is not None
+            self._feed_noise(self.sock)
+            frames += [self.ndev.hello_frame(), self.ndev.handshake_frame()]
+        for f in frames:
+            self.io_chunk(self.sock, f)
+            self.step()
+            self.drain()
+        frames = [self.dframe(self.hello_resp())] + ([self.dframe(self.connect_resp())] if self.login else [])
+        for f in frames:
+            self.io_chunk(self.sock, f)
+            self.step()
+            self.drain()
+        if self.outcome("finish") != "ok":
+            raise HarnessError(f"seed: finish did not succeed: {self.results.get('finish')}")
+
     def connect_fully(self) -> None:
         self.do_start()
         self.do_tcp_ok()
